@@ -222,10 +222,43 @@ package tree
 //@   call (*tree.Tree).computeEdgeHashesLeftRecur [up_pass_after_the_down_pass_from_the_same_node] a1 == (cur == nil ? t.root : cur) && a2 == nil && a3 == nil
 
 // depths of every node from the tips and from the root (thin)
+// Node depths (properties C04, C16: "indexes ready for use"): a rooted tree is walked from its root, an unrooted one
+// level by level from its tips - nodes without a depth get the current level, and the next level (their neighbours still
+// without a depth) is collected in storage of its own, never in the list being walked
 //@ func (*tree.Tree).ComputeDepths
+//@   flag countcalls
 //@   requires t != nil
+//@   allocates iface, []*Node
+//@   assigns Node.depth, Node.rootdepth
+//@   call (*tree.Tree).computeDepthRecurRooted [a_rooted_tree_is_walked_from_its_root_at_root_depth_zero] a0 == t && a1 == t.root && a2 == nil && a3 == nil && a4 == 0 && len(t.root.neigh) == 2
+//@   call (*tree.Tree).computeDepthUnRooted [an_unrooted_tree_is_walked_from_its_tips] a0 == t && len(t.root.neigh) != 2
+//@   ensures [exactly_one_of_the_two_walks] ghost(ncalls_computeDepthRecurRooted) + ghost(ncalls_computeDepthUnRooted) == old(ghost(ncalls_computeDepthRecurRooted) + ghost(ncalls_computeDepthUnRooted)) + 1
+//@ func (*tree.Tree).computeDepthRecurRooted
+//@   flag noframe
+//@   requires t != nil && n != nil
 //@   allocates iface
 //@   assigns Node.depth, Node.rootdepth
+//@   call (*tree.Tree).computeDepthRecurRooted [every_other_neighbour_one_level_further_from_the_root] a0 == t && a1 == next && next != prev && a2 == n && a4 == rootdepth + 1
+//@   ensures [a_tip_is_at_depth_zero] old(len(n.neigh)) == 1 ==> result == 0
+//@   loop 1
+//@     complete [all_iterations_no_early_exit]
+//@     step [the_depth_kept_is_the_smallest_depth_below] next != prev ==> next(mindepth) == ((mindepth == -1 || depth < mindepth) ? depth : mindepth)
+//@ func (*tree.Tree).computeDepthUnRooted
+//@   flag noframe
+//@   requires t != nil
+//@   allocates iface, []*Node
+//@   assigns Node.depth
+//@   loop 1
+//@     step [one_level_per_round] next(currentlevel) == currentlevel + 1
+//@   loop 2
+//@     complete [all_iterations_no_early_exit]
+//@     step [a_node_still_without_a_depth_gets_the_current_level_the_others_keep_theirs] n.depth == (atHead(n.depth) == -1 ? currentlevel : atHead(n.depth))
+//@   loop 3
+//@     complete [all_iterations_no_early_exit]
+//@     invariant [the_next_level_is_collected_in_storage_of_its_own_not_in_the_list_being_walked] arr(nextnodes) != arr(nodes)
+//@   loop 4
+//@     complete [all_iterations_no_early_exit]
+//@     invariant [the_next_level_is_collected_in_storage_of_its_own_not_in_the_list_being_walked] arr(nextnodes) != arr(nodes)
 
 // CompareTipIndexes (properties C08, C10): accepted exactly when both name indexes are non-empty, of equal size,
 // and every name of the first is a name of the second (with equal sizes: the same name sets)
@@ -301,6 +334,7 @@ package tree
 // The worker closure of CompareWeighted (properties C08, C11)
 //@ func tree.CompareWeighted$1
 //@   flag worker
+//@   flag countcalls
 //@   flag noframe
 //@   requires compTrees != nil && stats != nil && refTree != nil && refIndex != nil && !closed(stats)
 //@   requires forall k int :: 0 <= k && k < len(refEdges) ==> refEdges[k] != nil && refEdges[k].right != nil
@@ -325,9 +359,11 @@ package tree
 //@     invariant [compared_branches_intact] forall k int :: 0 <= k && k < len(compEdges) ==> compEdges[k] != nil && compEdges[k].right != nil
 //@     invariant [reference_branches_intact] forall k int :: 0 <= k && k < len(refEdges) ==> refEdges[k] != nil && refEdges[k].right != nil
 //@   loop 3
+//@     step [every_compared_branch_that_takes_part_is_looked_up_whatever_was_found_before] ghost(ncalls_Value) == atHead(ghost(ncalls_Value)) + ((tips || len(compEdge.right.neigh) != 1) ? 1 : 0)
 //@     invariant [identical_so_far_implies_nothing_specific] sametree ==> len(Comp) == 0
 //@     invariant [lists_built_for_this_tree_only] (arr(Common) == 0 || freshsince(1, Common)) && (arr(Comp) == 0 || freshsince(1, Comp)) && (arr(Ref) == 0 || freshsince(1, Ref))
 //@   loop 4
+//@     step [every_reference_branch_that_takes_part_is_looked_up_whatever_was_found_before] ghost(ncalls_Value) == atHead(ghost(ncalls_Value)) + ((tips || len(refEdge.right.neigh) != 1) ? 1 : 0)
 //@     invariant [identical_so_far_implies_nothing_specific] sametree ==> len(Comp) == 0 && len(Ref) == 0
 //@     invariant [lists_built_for_this_tree_only] (arr(Common) == 0 || freshsince(1, Common)) && (arr(Comp) == 0 || freshsince(1, Comp)) && (arr(Ref) == 0 || freshsince(1, Ref))
 
@@ -1455,6 +1491,7 @@ package tree
 //@   flag countcalls
 //@   ensures [a_tree_or_an_error] result1 == nil ==> result0 != nil && fresh(result0)
 //@   ensures [too_few_tips_is_an_error_not_a_crash] nbtips < 2 ==> result0 == nil && result1 != nil
+//@   ensures [two_tips_and_more_are_never_refused] nbtips >= 2 ==> result1 == nil && result0 != nil
 //@   ensures [a_single_inner_node_and_one_node_per_tip] result1 == nil ==> ghost(ncalls_NewNode) == old(ghost(ncalls_NewNode)) + nbtips + 1 && ghost(ncalls_ConnectNodes) == old(ghost(ncalls_ConnectNodes)) + nbtips
 //@   ensures [indexes_are_rebuilt_before_the_tree_is_returned] result1 == nil ==> ghost(ncalls_ReinitIndexes) == old(ghost(ncalls_ReinitIndexes)) + 1
 //@   call (*tree.Tree).SetRoot [the_inner_node_is_the_root] a0 == t && a1 == n && ghost(ncalls_NewNode) == old(ghost(ncalls_NewNode)) + 1
@@ -2105,3 +2142,17 @@ package tree
 //@   assigns mapof(ni.index)
 //@   ensures [the_node_is_registered_under_its_own_name] has(ni.index, n.name) && ni.index[n.name] == n
 //@   ensures [every_other_entry_is_kept] forall s string :: {has(ni.index, s)} {ni.index[s]} s != n.name ==> has(ni.index, s) == old(has(ni.index, s)) && (has(ni.index, s) ==> ni.index[s] == old(ni.index[s]))
+
+// CollapseClade (property C03): the clade found is cut off above its common ancestor: the slot of the clade in its parent
+// is looked up *before* the surgery and is the slot that takes the new tip; the clade's branch gets the tip as lower end
+// and becomes the tip's only branch; only afterwards is the parent looked up in (and removed from) the clade's root
+//@ func (*tree.Tree).CollapseClade
+//@   flag noframe
+//@   flag lightcalls
+//@   flag countcalls
+//@   requires t != nil
+//@   call (*tree.Node).NodeIndex [the_slot_of_the_clade_in_its_parent_before_the_surgery_the_slot_of_the_parent_in_the_clade_after_it] ghost(ncalls_NodeIndex) == old(ghost(ncalls_NodeIndex)) ? (a0 == p && a1 == n && ghost(ncalls_setRight) == old(ghost(ncalls_setRight))) : (a0 == n && a1 == p && ghost(ncalls_setRight) == old(ghost(ncalls_setRight)) + 1)
+//@   call (*tree.Edge).setRight [the_new_tip_becomes_the_lower_end_of_the_clade_s_branch_in_the_slot_looked_up_in_the_parent] a0 == e && a1 == tip && fresh(tip) && p.neigh[idx] == tip && ghost(ncalls_NodeIndex) == old(ghost(ncalls_NodeIndex)) + 1
+//@   call (*tree.Node).addChild [the_clade_s_branch_is_the_tip_s_only_branch] a0 == tip && a1 == p && a2 == e
+//@   call (*tree.Node).delNeighbor [the_clade_forgets_its_former_parent] a0 == n && a1 == p
+//@   call (*tree.Tree).SetRoot [the_clade_becomes_a_tree_of_its_own_rooted_at_the_common_ancestor] a1 == n
